@@ -18,7 +18,7 @@ ASSUMPTIONS = [
     "not judged: executions whose reference values reach 2^31-1 (C20), sources needing >= 1024 rewrites, duplicate labels/parameters",
 ]
 
-VARIANTS = ["canonical", "layout", "files", "libmacros", "libmacros-layout", "rndmacros", "boundary", "nestedcalls", "big"]
+VARIANTS = ["canonical", "layout", "files", "libmacros", "libmacros-layout", "rndmacros", "boundary", "nestedcalls", "big", "varbody"]
 PER_CHUNK = 60
 
 
@@ -42,6 +42,8 @@ def make_source(r, variant):
         return macrosets.random_macro_program(r)
     if variant == "nestedcalls":
         return nested_calls_source(r)
+    if variant == "varbody":
+        return varbody_source(r)
     g = programs.Gen(r, o)
     p = g.program()
     kw = programs.Speller(r if r.random() < 0.5 else None)
@@ -56,6 +58,34 @@ def make_source(r, variant):
             f, m = layouts.split_tokens([t for l in lines for t in l], r)
         return f, m, []
     return {"main": layouts.canonical(lines)}, "main", []
+
+
+def varbody_source(r):
+    """the same few macro PATTERNS in every source of this variant, but with bodies, priorities and positions that differ
+    from source to source (a driver process compiles many of them one after the other)"""
+    k = r.randint(1, 9)
+    bodies_step = ["$0 := $0 + %d" % k, "$0 := $0 + %d ; $0 := $0 + 1" % k, "LOOP $0 DO w := w + %d END" % k, "$0 := %d" % k]
+    bodies_op = ["RUN add WITH $0, $1 END", "RUN sub WITH $0, $1 END", "RUN add WITH $1, RUN add WITH $0, %d END END" % k, "$0", "$1"]
+    bodies_twice = ["$0 ; $0", "$0", "#0 := 2 ; LOOP #0 DO $0 END", "#0 := %d ; LOOP #0 DO $0 END" % (k % 4)]
+    defs = ["DEFINE %sSTEP <ID> AS %s END DEFINE" % (r.choice(["", "PRIO 3 ", "PRIO 8 "]), r.choice(bodies_step)),
+            "DEFINE %s<V> @ <V> AS %s END DEFINE" % (r.choice(["PRIO 5 ", "PRIO 6 "]), r.choice(bodies_op)),
+            "DEFINE TWICE <P> ECIWT AS %s END DEFINE" % r.choice(bodies_twice)]
+    r.shuffle(defs)
+    pad = "\n" * r.randint(0, 3)
+    vars_ = ["x", "y", "z"]
+    lines = ["%s := %d ;" % (v, r.randint(0, 4)) for v in vars_]
+    n = r.randint(2, 5)
+    for i in range(n):
+        q = r.random()
+        if q < 0.35:
+            l = "STEP %s" % r.choice(vars_)
+        elif q < 0.7:
+            l = "%s := %s @ %s" % (r.choice(vars_), r.choice(vars_ + ["2"]), r.choice(vars_ + ["1"]))
+        else:
+            l = "TWICE STEP %s ; %s := %s + 1 ECIWT" % (r.choice(vars_), r.choice(vars_), r.choice(vars_))
+        lines.append(l + (" ;" if i + 1 < n else ""))
+    name = r.choice(["main", "main", "prog.theo"])
+    return {name: pad + macrosets.HELPERS + "\n".join(defs) + "\n" + "\n".join(lines)}, name, ["varbody"]
 
 
 def nested_calls_source(r):
